@@ -1,0 +1,176 @@
+//! Verification hooks (only compiled with `--cfg mahf_verif`).
+//!
+//! Nothing in here changes behaviour unless the caller installs an [`Observer`] into the
+//! [`State`] (via [`ObserverSlot`]) or an [`io::IoHook`] on the current thread.
+
+use std::marker::PhantomData;
+
+use better_any::{Tid, TidAble};
+
+use crate::{
+    component::ExecResult,
+    components::{control_flow::Loop, Component},
+    CustomState, Problem, State,
+};
+
+/// Events emitted by [`Loop::execute`].
+#[derive(Clone, Copy, Debug, PartialEq, Eq)]
+pub enum LoopEvent {
+    /// The condition was re-initialised; no test happened yet.
+    Enter,
+    /// The condition evaluated to `true`; the body is about to run.
+    PassBegin,
+    /// The body ran and the iteration counter was incremented.
+    PassEnd,
+    /// The condition evaluated to `false`.
+    Exit,
+}
+
+/// Receives step events from the control-flow components.
+pub trait Observer<P: Problem>: Send {
+    /// Called before `child` of a [`Block`] is executed. Returning `Err` makes the block behave
+    /// exactly as if `child` itself had failed with that error (the child is not executed).
+    ///
+    /// [`Block`]: crate::components::Block
+    fn block_before(
+        &mut self,
+        child: &dyn Component<P>,
+        problem: &P,
+        state: &mut State<P>,
+    ) -> ExecResult<()>;
+
+    /// Called after `child` of a [`Block`] returned `Ok`.
+    ///
+    /// [`Block`]: crate::components::Block
+    fn block_after(&mut self, child: &dyn Component<P>, problem: &P, state: &mut State<P>);
+
+    /// Called by [`Loop::execute`].
+    fn loop_event(&mut self, lp: &Loop<P>, event: LoopEvent, problem: &P, state: &mut State<P>);
+}
+
+/// Custom state holding the (optional) observer.
+#[derive(Tid)]
+pub struct ObserverSlot<'a, P: Problem + 'static> {
+    observer: Option<Box<dyn Observer<P> + 'a>>,
+    marker: PhantomData<fn() -> P>,
+}
+
+impl<'a, P: Problem> CustomState<'a> for ObserverSlot<'a, P> {}
+
+impl<'a, P: Problem> ObserverSlot<'a, P> {
+    pub fn new(observer: impl Observer<P> + 'a) -> Self {
+        Self {
+            observer: Some(Box::new(observer)),
+            marker: PhantomData,
+        }
+    }
+}
+
+fn with_observer<'a, P: Problem, R>(
+    state: &mut State<'a, P>,
+    f: impl FnOnce(&mut (dyn Observer<P> + 'a), &mut State<'a, P>) -> R,
+) -> Option<R> {
+    // The observer is taken out of its slot for the duration of the call, so the observer can
+    // use the whole state and the state under observation never has the slot borrowed.
+    let mut observer = state.get_mut::<ObserverSlot<'a, P>>()?.observer.take()?;
+    let result = f(observer.as_mut(), state);
+    if let Some(slot) = state.get_mut::<ObserverSlot<'a, P>>() {
+        slot.observer = Some(observer);
+    }
+    Some(result)
+}
+
+pub(crate) fn block_before<P: Problem>(
+    child: &dyn Component<P>,
+    problem: &P,
+    state: &mut State<P>,
+) -> ExecResult<()> {
+    with_observer(state, |observer, state| {
+        observer.block_before(child, problem, state)
+    })
+    .unwrap_or(Ok(()))
+}
+
+pub(crate) fn block_after<P: Problem>(child: &dyn Component<P>, problem: &P, state: &mut State<P>) {
+    with_observer(state, |observer, state| {
+        observer.block_after(child, problem, state)
+    });
+}
+
+pub(crate) fn loop_event<P: Problem>(
+    lp: &Loop<P>,
+    event: LoopEvent,
+    problem: &P,
+    state: &mut State<P>,
+) {
+    with_observer(state, |observer, state| {
+        observer.loop_event(lp, event, problem, state)
+    });
+}
+
+/// I/O seam for the export paths.
+pub mod io {
+    use std::{
+        cell::RefCell,
+        fs::File,
+        io::{self, Write},
+        path::Path,
+    };
+
+    /// Installed per thread by the harness; consulted by every export.
+    pub trait IoHook {
+        /// Called before a file is created. `Err` is returned instead of creating the file.
+        fn before_create(&mut self, path: &Path) -> io::Result<()>;
+        /// Called before a directory is created. `Err` is returned instead of creating it.
+        fn before_create_dir(&mut self, path: &Path) -> io::Result<()>;
+        /// Wraps the freshly created file.
+        fn wrap(&mut self, path: &Path, file: File) -> Box<dyn Write>;
+    }
+
+    thread_local! {
+        static HOOK: RefCell<Option<Box<dyn IoHook>>> = const { RefCell::new(None) };
+    }
+
+    /// Installs (or removes) the hook for the current thread, returning the previous one.
+    pub fn install(hook: Option<Box<dyn IoHook>>) -> Option<Box<dyn IoHook>> {
+        HOOK.with(|h| std::mem::replace(&mut *h.borrow_mut(), hook))
+    }
+
+    fn with_hook<R>(f: impl FnOnce(&mut dyn IoHook) -> R) -> Option<R> {
+        // Taken out while it runs, so a hook may yield to another simulated thread that
+        // performs I/O itself; hooks sharing state do so behind their own handle.
+        let mut hook = HOOK.with(|h| h.borrow_mut().take())?;
+        let result = f(hook.as_mut());
+        HOOK.with(|h| {
+            let mut slot = h.borrow_mut();
+            if slot.is_none() {
+                *slot = Some(hook);
+            }
+        });
+        Some(result)
+    }
+
+    pub(crate) fn before_create(path: &Path) -> io::Result<()> {
+        with_hook(|h| h.before_create(path)).unwrap_or(Ok(()))
+    }
+
+    pub(crate) fn before_create_dir(path: &Path) -> io::Result<()> {
+        with_hook(|h| h.before_create_dir(path)).unwrap_or(Ok(()))
+    }
+
+    pub(crate) fn wrap(path: &Path, file: File) -> Box<dyn Write> {
+        match HOOK.with(|h| h.borrow_mut().take()) {
+            Some(mut hook) => {
+                let wrapped = hook.wrap(path, file);
+                HOOK.with(|h| {
+                    let mut slot = h.borrow_mut();
+                    if slot.is_none() {
+                        *slot = Some(hook);
+                    }
+                });
+                wrapped
+            }
+            None => Box::new(file),
+        }
+    }
+}
